@@ -1025,6 +1025,30 @@ def m_tracing(engine, ctx, args, callee, frame):
     return Opaque("tracing")
 
 
+# ------------------------------------------------------------------ integer operator traits called as functions (operands by reference)
+
+_INT_T = r"(?:[ui](?:8|16|32|64|128|size))"
+
+
+@model(r"^<&?(?:'\w+ )?" + _INT_T + r" as (?:std::ops::)?(Add|Sub|Mul|Div|Rem|BitAnd|BitOr|BitXor)<&?(?:'\w+ )?" + _INT_T + r">>::(add|sub|mul|div|rem|bitand|bitor|bitxor)$")
+def m_int_op_trait(engine, ctx, args, callee, frame):
+    """`&a + b`, `a - &b`, ...: same semantics as the MIR binary operator, including the overflow /
+    division-by-zero panic of a build with overflow checks"""
+    from .engine import overflow_flag, Panic
+    op = re.search(r"as (?:std::ops::)?(\w+)<", callee).group(1)
+    a, b = deref(args[0]), deref(args[1])
+    if not (isinstance(a, Int) and isinstance(b, Int)):
+        raise Untranslatable("integer operator on %s, %s" % (type(a).__name__, type(b).__name__))
+    site = (frame.fn.name, callee) if frame else None
+    if op in ("Add", "Sub", "Mul") and engine.overflow_checks:
+        if ctx.branch(overflow_flag(op, a, b)):
+            raise Panic("attempt to %s with overflow" % {"Add": "add", "Sub": "subtract", "Mul": "multiply"}[op], site, kind="overflow")
+    if op in ("Div", "Rem"):
+        if ctx.branch(int_binop("Eq", b, Int(0, b.bits, b.signed))):
+            raise Panic("attempt to divide by zero" if op == "Div" else "attempt to calculate the remainder with a divisor of zero", site)
+    return int_binop(op, a, b)
+
+
 # ------------------------------------------------------------------ slices, arrays, vectors of bytes
 
 @model(r"^(std::vec::)?Vec::<.*>::as_slice$|^<(std::vec::)?Vec<.*> as (std::ops::)?Deref>::deref$|^<(std::vec::)?Vec<.*> as AsRef<\[.*\]>>::as_ref$|^(std::vec::)?Vec::<.*>::as_mut_slice$|^<(std::vec::)?Vec<.*> as (std::ops::)?DerefMut>::deref_mut$")
@@ -1032,7 +1056,7 @@ def m_vec_as_slice(engine, ctx, args, callee, frame):
     return Ref(deref_cell(args[0]))
 
 
-@model(r"^<\[u8; \d+\] as AsRef<\[u8\]>>::as_ref$|^<\[.*\] as AsRef<\[.*\]>>::as_ref$")
+@model(r"^<\[u8; \d+\] as AsRef<\[u8\]>>::as_ref$|^<\[.*\] as AsRef<\[.*\]>>::as_ref$|^core::array::<impl \[.*; \d+\]>::as_slice$")
 def m_arr_as_ref(engine, ctx, args, callee, frame):
     return Ref(deref_cell(args[0]))
 
@@ -1317,6 +1341,15 @@ def m_uuid_from_bytes(engine, ctx, args, callee, frame):
     return Agg("struct", "Uuid", [Cell(args[0])])
 
 
+@model(r"(^|::)(<impl )?Uuid>?::from_slice$")
+def m_uuid_from_slice(engine, ctx, args, callee, frame):
+    """Uuid::from_slice: Ok for exactly 16 bytes, Err(uuid::Error) otherwise"""
+    b = as_bytes(engine, args[0])
+    if not ctx.branch(int_binop("Eq", b.len, Int(16, 64))):
+        return err(Opaque("uuid::Error", "byte length"))
+    return ok(Agg("struct", "Uuid", [Cell(Agg("array", None, [Cell(b.byte(i)) for i in range(16)]))]))
+
+
 @model(r"(^|::)(<impl )?Uuid>?::as_bytes$")
 def m_uuid_as_bytes(engine, ctx, args, callee, frame):
     u = deref(args[0])
@@ -1456,7 +1489,7 @@ def m_clone_generic(engine, ctx, args, callee, frame):
 @model(r"^(std::|core::)?(cmp::)?(min|max)::<|^<(\w+) as Ord>::(min|max)$|^(std::|core::)?cmp::Ord::(min|max)$")
 def m_minmax(engine, ctx, args, callee, frame):
     a, b = args
-    is_min = "min" in callee.split("::")[-1] or callee.rstrip(">").endswith("min")
+    is_min = re.search(r"(min|max)(::<.*>)?$", callee).group(1) == "min"
     if ctx.branch(int_binop("Le", a, b)):
         return a if is_min else b
     return b if is_min else a
@@ -1737,6 +1770,22 @@ def m_vec_drain(engine, ctx, args, callee, frame):
         items = list(v.items)
         v.items[:] = []
         return IterV("seq", items=items, idx=0, end=len(items), by_ref=False)
+    if isinstance(v, VecV) and isinstance(rng, Agg) and rng.ty in ("Range", "RangeFrom", "RangeTo", "RangeInclusive", "RangeToInclusive"):
+        n = len(v.items)
+        fs = [c.v for c in rng.fields]
+        lo, hi = 0, n
+        if rng.ty in ("Range", "RangeInclusive"):
+            lo = ctx.concretize(fs[0], n + 2, "drain start")
+            hi = ctx.concretize(fs[1], n + 2, "drain end") + (1 if rng.ty == "RangeInclusive" else 0)
+        elif rng.ty == "RangeFrom":
+            lo = ctx.concretize(fs[0], n + 2, "drain start")
+        else:
+            hi = ctx.concretize(fs[0], n + 2, "drain end") + (1 if rng.ty == "RangeToInclusive" else 0)
+        if lo > hi or hi > n:
+            raise Panic("drain range out of bounds", (frame.fn.name if frame else None,), kind="bounds")
+        items = v.items[lo:hi]
+        del v.items[lo:hi]
+        return IterV("seq", items=items, idx=0, end=len(items), by_ref=False)
     raise Untranslatable("Vec::drain with %r" % (rng,))
 
 
@@ -1829,7 +1878,7 @@ def m_collect(engine, ctx, args, callee, frame):
     raise Untranslatable("collect into %s" % target)
 
 
-@model(r"^<.* as (std::iter::)?Iterator>::(count|last|for_each|any|all|find|position|fold|sum|max|min)(::<.*>)?$")
+@model(r"^<.* as (std::iter::)?Iterator>::(count|last|for_each|any|all|find|position|fold)(::<.*>)?$")
 def m_iter_consumers(engine, ctx, args, callee, frame):
     name = re.search(r"Iterator>::(\w+)", callee).group(1)
     it = as_iter(engine, ctx, args[0] if not isinstance(args[0], Ref) else deref(args[0]))
@@ -1893,6 +1942,11 @@ def value_eq_cond(engine, ctx, a, b):
     a, b = deref(a), deref(b)
     if isinstance(a, Int) and isinstance(b, Int):
         return int_binop("Eq", a, b)
+    ue = getattr(engine, "user_eq_types", None)
+    if ue and isinstance(a, Agg) and isinstance(b, Agg) and a.kind == "struct" and a.ty in ue and b.ty == a.ty:
+        # key type with a hand-written PartialEq: ask the real impl (opt-in per harness)
+        r = engine.call_named("<%s as PartialEq>::eq" % a.ty, [Ref(Cell(a)), Ref(Cell(b))], None)
+        return to_bool(r) if not isinstance(r, bool) else r
     if isinstance(a, bool) or isinstance(b, bool) or (z3.is_expr(a) and z3.is_bool(a)):
         return to_bool(bz3(a) == bz3(b))
     if isinstance(a, Bytes) or isinstance(b, Bytes) or getattr(a, "hash_term", False) or getattr(b, "hash_term", False):
@@ -1947,8 +2001,17 @@ class MapV:
             old = self.entries[i][1].v
             self.entries[i][1].v = val
             return some(old)
-        self.entries.append((key, Cell(val)))
+        self.add_entry(engine, ctx, key, Cell(val))
         return none()
+
+    def add_entry(self, engine, ctx, key, cell):
+        """append; a BTreeMap keeps its entries in key order (derive-style lexicographic comparison)"""
+        if self.kind == "BTreeMap":
+            for i, (k, _) in enumerate(self.entries):
+                if compare_values(engine, ctx, key, k) < 0:
+                    self.entries.insert(i, (key, cell))
+                    return
+        self.entries.append((key, cell))
 
     def seq_len(self):
         return Int(len(self.entries), 64)
@@ -1976,6 +2039,11 @@ class SetV:
     def insert(self, engine, ctx, key):
         if self.contains(engine, ctx, key):
             return False
+        if self.kind == "BTreeSet":
+            for i, k in enumerate(self.items):
+                if compare_values(engine, ctx, key, k) < 0:
+                    self.items.insert(i, key)
+                    return True
         self.items.append(key)
         return True
 
@@ -2200,9 +2268,16 @@ def opaque_parser(name, definitely_bad):
     assumed-success class (flagged nondet_model, excluded from outcome comparison)"""
     def f(engine, ctx, args, callee, frame):
         b = as_bytes(engine, args[0])
+        seen = ctx.__dict__.setdefault("parsed_ok", [])
+        for pn, pb in seen:
+            # the parser is a function of the text: a string equal to one it accepted on this path is accepted again
+            if pn == name and ctx.must(eq_formula(engine, pb, b)):
+                return ok(Opaque(name, b))
         if ctx.branch(ctx.fresh_bool(name + "_ok")):
             ctx.note("nondet_model", what="%s assumed to succeed" % name)
             ctx.assume(int_binop("Gt", b.len, Int(0, 64)))
+            ctx.assume(b_not(definitely_bad(b)))
+            seen.append((name, b))
             return ok(Opaque(name, b))
         ctx.assume(definitely_bad(b))
         return err(Opaque(name + "::Error"))
@@ -2576,10 +2651,11 @@ def compare_values(engine, ctx, a, b):
             return 0
         return 1
     if isinstance(a, Agg) and isinstance(b, Agg):
+        sign = -1 if (a.ty == "Reverse" and b.ty == "Reverse") else 1      # std::cmp::Reverse
         for x, y in zip(a.fields, b.fields):
             r = compare_values(engine, ctx, x.v, y.v)
             if r != 0:
-                return r
+                return sign * r
         return 0
     if isinstance(a, (Bytes,)) or isinstance(b, Bytes):
         ba, bb = as_bytes(engine, a), as_bytes(engine, b)
@@ -2617,7 +2693,7 @@ def m_int_eq(engine, ctx, args, callee, frame):
     return b_not(c) if callee.endswith("ne") else c
 
 
-@model(r"^<(std::vec::)?Vec<.*> as PartialEq>::(eq|ne)$|^<\[.*\] as PartialEq>::(eq|ne)$|^<&\[.*\] as PartialEq>::(eq|ne)$|^<\[.*; \d+\] as PartialEq>::(eq|ne)$|^core::array::equality::<impl PartialEq.*>::(eq|ne)$")
+@model(r"^<(std::vec::)?Vec<.*> as PartialEq>::(eq|ne)$|^<\[.*\] as PartialEq>::(eq|ne)$|^<&\[.*\] as PartialEq>::(eq|ne)$|^<\[.*; \d+\] as PartialEq>::(eq|ne)$|^core::array::equality::<impl PartialEq.*>::(eq|ne)$|^<&?(mut )?\[.*\] as PartialEq<&?(mut )?\[.*\]>>::(eq|ne)$|^<(std::vec::)?Vec<.*> as PartialEq<&?(mut )?\[.*\]>>::(eq|ne)$|^<&?(mut )?\[.*\] as PartialEq<(std::vec::)?Vec<.*>>>::(eq|ne)$")
 def m_seq_eq_generic(engine, ctx, args, callee, frame):
     a, b = deref(args[0]), deref(args[1])
     ia, ib = seq_cells(engine, ctx, args[0]), seq_cells(engine, ctx, args[1])
@@ -2647,7 +2723,8 @@ def eq_formula(engine, a, b, bound=64):
         return to_bool(bz3(a) == bz3(b))
     if getattr(a, "hash_term", False) or getattr(b, "hash_term", False):
         from .merkle import hash_eq
-        return hash_eq(None, a, b)
+        cx = getattr(engine, "ctx", None) if engine is not None else None
+        return hash_eq(cx if getattr(cx, "sha_bytes", False) else None, a, b)
     if a is b:
         return True
     if isinstance(a, Bytes) or isinstance(b, Bytes):
@@ -2943,7 +3020,7 @@ def m_entry_or_insert(engine, ctx, args, callee, frame):
     else:
         v = args[1]
     c = Cell(v)
-    e.mp.entries.append((e.key, c))
+    e.mp.add_entry(engine, ctx, e.key, c)
     return Ref(c)
 
 
